@@ -3,9 +3,9 @@
 FMT_STUBS = "std::fmt::format -> String::new(), snafu::backtrace_collection_enabled -> false (error messages outside the claim)"
 
 
-def H(name, module, tier="quick", timeout=300, desc="", funcs=(), bounds="", replay="playback"):
+def H(name, module, tier="quick", timeout=300, desc="", funcs=(), bounds="", replay="playback", mem=None):
     return {"name": name, "module": module, "tier": tier, "timeout": timeout, "desc": desc,
-            "funcs": list(funcs), "bounds": bounds, "replay": replay}
+            "funcs": list(funcs), "bounds": bounds, "replay": replay, "mem": mem}
 
 
 PROPS = {}
@@ -42,7 +42,7 @@ PROPS["C14"] = {
                   "lengths and every reachable carry state, the SAT solver shows the streaming hasher's transcript equals a "
                   "byte-at-a-time reference transducer; one inductive step covers all chunkings.",
     "level_note": "Bounds: chunk lengths as listed in evidence; hash primitive = injective transcript model; Kani's std model "
-                  "and CBMC are trusted; memchr SIMD paths not exercised. NOT covered: the streaming NormalizedReader (whole-reader "
+                  "and CBMC are trusted; memchr SIMD paths not exercised. Of the streaming NormalizedReader only the end-of-source step is covered (c14_reader_step_0/fill_0); NOT covered: its data-carrying steps (whole-reader "
                   "harnesses on a reader scaled to a 4-octet buffer, and single cleanup_buffer/fill_buffer steps, all ran out of "
                   "14-45 GB in CBMC's array post-processing: two replace_newlines passes plus BytesMut appends at symbolic offsets; "
                   "probes kept unregistered in harness/c14_norm.rs) and inputs above the stated lengths.",
@@ -66,6 +66,11 @@ PROPS["C14"] = {
         H("c14_replace_%d" % l, "c14_norm", "quick" if l <= 2 else "thorough", 600 if l <= 2 else 1800,
           "replace_newlines(x, CRLF) == reference for every x of length %d" % l,
           ["normalize_lines::replace_newlines"], "L=%d" % l) for l in range(0, 6)
+    ] + [
+        H("c14_reader_step_0", "c14_norm", "quick", 300, "NormalizedReader::cleanup_buffer (buffer scaled to 4) on an EMPTY final read from an arbitrary stale buffer and arbitrary carried octet: emits exactly the pending CR, if any",
+          ["normalize_lines::NormalizedReader::cleanup_buffer", "normalize_lines::replace_newlines"], "4 stale octets + carried octet symbolic; fill level 0 only (levels 1..4 out of reach, see level_note)"),
+        H("c14_reader_fill_0", "c14_norm", "quick", 300, "real NormalizedReader::fill_buffer at end of source from an arbitrary previous buffer: is_done set, nothing consumed, pending CR (last slot of previous buffer) flushed",
+          ["normalize_lines::NormalizedReader::{fill_buffer,cleanup_buffer}", "util::fill_buffer"], "previous buffer 4 symbolic octets, empty source"),
     ] + [
         H("c14_crlf_%d_%d" % ab, "c14_lit", "quick" if sum(ab) <= 4 else "thorough", 600,
           "CrLfCheckReader over chunks of %d+%d symbolic bytes: accepts iff no bare LF, data unchanged" % ab,
@@ -127,7 +132,7 @@ C11_H = [
     H("c11_sign_data_v4_3", "c11_sig", "thorough", 900, "v4 data signature over 3 symbolic bytes", SIGN_FUNCS, "see desc"),
     H("c11_verify_data_v4_2", "c11_sig", "quick", 900, "v4 binary data signature carrying the RFC digest is accepted by Signature::verify", SIGN_FUNCS, "see desc"),
     H("c11_verify_data_v6_2", "c11_sig", "thorough", 900, "v6 binary data signature, verify side", SIGN_FUNCS, "see desc"),
-    H("c11_sign_key_v4", "c11_sig", "quick", 900, "direct-key/key-revocation v4 signer over v4|v6 signee: 0x99/0x9B framing, sign side", SIGN_FUNCS, "key bodies 3+5 bytes"),
+    H("c11_sign_key_v4", "c11_sig", "thorough", 900, "direct-key/key-revocation v4 signer over v4|v6 signee: 0x99/0x9B framing, sign side", SIGN_FUNCS, "key bodies 3+5 bytes"),
     H("c11_verify_key_v4", "c11_sig", "thorough", 900, "direct-key/key-revocation v4, verify side", SIGN_FUNCS, "key bodies 3+5 bytes"),
     H("c11_sign_subkey_binding_v4", "c11_sig", "quick", 900, "0x18 v4 sign side: primary then subkey framing", SIGN_FUNCS, "key bodies 3+4 bytes"),
     H("c11_verify_subkey_binding_v4", "c11_sig", "thorough", 900, "0x18 v4 verify side", SIGN_FUNCS, "key bodies 3+4 bytes"),
@@ -198,13 +203,15 @@ C05_CODEC = [
 ]
 SEC_F = ["types::SecretParams::{from_slice,to_writer,write_len,string_to_key_id,has_sha1_checksum}", "types::params::secret::parse_secret_fields", "types::EncryptedSecretParams::{new,to_writer,write_len}"]
 C05_MUT = [
+    H("c08_usage_255", "c08_secret", "thorough", 1500, "locked secret key material with S2K usage octet 255 (AES128, simple S2K): parser keeps the usage octet, selects the 16-bit checksum (not SHA-1)", SEC_F[:2], "4 concrete header octets + 22 symbolic octets (iv, data)", mem=28),
+    H("c08_usage_254", "c08_secret", "thorough", 1500, "same with usage octet 254: octet kept, SHA-1 check selected", SEC_F[:2], "4 concrete header octets + 22 symbolic octets", mem=28),
     H("c05_details_write_len", "c05_sigmut", "quick", 900, "SignedKeyDetails with one direct-key signature: write_len == octets written (tag + length + body)", ["composed::SignedKeyDetails::{to_writer,write_len}", "packet::Signature::{to_writer,write_len}", "packet::PacketTrait::{to_writer_with_header,write_len_with_header}"], "creation time symbolic"),
     H("c05_keyflags_setters", "c05_sigmut", "quick", 600, "KeyFlags built through every subset of setters: write_len == octets written, RFC bit positions", ["packet::KeyFlags::{default,set_*,to_writer,write_len}"], "10 symbolic booleans"),
     H("c05_unhashed_push_remove_small", "c05_sigmut", "quick", 900, "Signature::unhashed_subpacket_push/remove with a 1-octet-length subpacket: header length == original", ["packet::Signature::{unhashed_subpacket_push,unhashed_subpacket_insert,unhashed_subpacket_remove}", "packet::Subpacket::write_len"], "original header length 10..70000 symbolic"),
     H("c05_unhashed_push_remove_2octet_len", "c05_sigmut", "quick", 900, "same with a 196-octet subpacket (2-octet subpacket length)", ["packet::Signature::{unhashed_subpacket_push,unhashed_subpacket_insert,unhashed_subpacket_remove}", "packet::Subpacket::write_len"], "original header length symbolic"),
 ]
 PROPS["C05"] = {
-    "inject": [("src/lib.rs", "c05_codec"), ("src/lib.rs", "c17_codec"), ("src/packet/signature/types.rs", "c05_sigmut")],
+    "inject": [("src/lib.rs", "c05_codec"), ("src/lib.rs", "c17_codec"), ("src/packet/signature/types.rs", "c05_sigmut"), ("src/lib.rs", "c08_secret")],
     "mem_gb": 12,
     "level_text": "Bounded model checking of the real parsers/serialisers: for every byte string of the stated lengths the solver "
                   "shows parse/serialise are mutually inverse, write_len equals the octets written and canonical inputs "
@@ -409,7 +416,7 @@ PROPS["C12"] = {
 
 # ------------------------------------------------------------------------------------------------
 PROPS["C10"] = {
-    "inject": [("src/armor/writer.rs", "c10_armor")],
+    "inject": [("src/armor/writer.rs", "c10_armor"), ("src/base64/reader.rs", "c10_b64")],
     "mem_gb": 12,
     "level_text": "Bounded model checking of the checksum path of the armor writer: the table-driven CRC-24 the writer uses equals the "
                   "bitwise RFC 9580 6.1.1 algorithm for every data of the stated lengths and any chunking, and the footer carries its base64.",
@@ -422,6 +429,11 @@ PROPS["C10"] = {
         H("c10_crc24_%d" % l, "c10_armor", "quick" if l in (1, 2) else "thorough", 600, "Crc24Hasher over every %d-octet data == bitwise RFC CRC-24" % l, ["crc24::Crc24Hasher::{new,write,finish}"], "L=%d" % l) for l in range(4)
     ] + [
         H("c10_crc24_split_2_1", "c10_armor", "quick", 600, "CRC over 2+1 chunking == reference", ["crc24::Crc24Hasher"], "L=3"),
+    ] + [
+        H("c10_b64reader_%d_%d" % nm, "c10_b64", "quick" if nm[0] <= 5 else "thorough", 900,
+          "Base64Reader::read over every %d-octet source x every 2-chunk fragmentation, %d-octet destination: tokens = unfragmented reference (CR/LF skipped, stop at first foreign octet), consumed prefix independent of the fragmentation" % nm,
+          ["base64::Base64Reader::{new,read,into_inner}", "base64::reader::is_base64_token"], "N=%d octets (all values), split 0..N, destination %d" % nm)
+        for nm in [(2, 2), (3, 3), (4, 2), (4, 4), (5, 4), (6, 6), (8, 4)]
     ],
 }
 
@@ -474,4 +486,11 @@ PROPS["C06"] = {
                        {"c11_sign_data_v6_2": "thorough", "c11_sign_primary_binding_v6": "thorough", "c11_verify_primary_binding_v4": "thorough",
                         "c11_sign_subkey_binding_v4": "thorough", "c11_verify_subkey_binding_v6": "thorough"})
                  + _pick("C14", {"c14_hasher_step_3", "c14_hasher_two_1_2", "c14_replace_2"}),
+}
+
+# measured single-harness wall times (s) of the slow ones, used only to order a parallel run (longest first)
+COST = {
+    "c11_sign_data_v4_2": 430, "c11_sign_data_v6_2": 360, "c11_sign_key_v4": 170, "c11_sign_cert_v4_positive": 150,
+    "c11_sign_cert_v6_positive": 140, "c11_verify_key_v6": 110, "c11_sign_subkey_binding_v4": 85,
+    "c05_s2k_other_255": 100,
 }
